@@ -312,6 +312,51 @@ def step (st : St) (op : List String) (impl : Option (List String)) : St × Stri
       (st', showSolveS r, v)
     | none, _ => (st, "no-lu", "-")
     | _, _ => (st, "bad-op", "-")
+  | "solveip" :: rest =>
+    -- `solve(B, B)`: the right-hand side (of the class of `X`) is also the output
+    match st.cur, parseMat rest with
+    | some c, some (⟨mb, nx, B⟩, []) =>
+      let Bs := storeOf st.kX ⟨mb, nx, B⟩
+      let r := solveSelfS c.ss Bs
+      let st' := match r with
+        | .ok (_, X') => { st with X := X' }
+        | .error _ => { st with X := Bs }
+      let v := match impl with
+        | none => "-"
+        | some t =>
+          if h : c.m = c.n then
+            let A : Mat Float c.n c.n := h ▸ c.A
+            let s : State Float c.n c.n := h ▸ c.s
+            solveVerdict A s B t
+          else "-"
+      (st', showSolveS r, v)
+    | none, _ => (st, "no-lu", "-")
+    | _, _ => (st, "bad-op", "-")
+  | "solvevip" :: mb :: rest =>
+    -- `solve(b, b)` of the vector overload
+    match st.cur, parseMat (mb :: "1" :: rest) with
+    | some c, some (⟨_, nx, B⟩, []) =>
+      if nx = 1 then
+        let b : Array Float := (entries B).toArray
+        let r := solveVecS c.ss b b
+        let st' := match r with
+          | .ok (_, x') => { st with xv := x' }
+          | .error _ => { st with xv := b }
+        let out := match r with
+          | .error e => showErr e
+          | .ok (d, x) => "minD " ++ showF d ++ " ; X " ++ " ".intercalate (toString x.size :: "1" :: x.toList.map showF)
+        let v := match impl with
+          | none => "-"
+          | some t =>
+            if h : c.m = c.n then
+              let A : Mat Float c.n c.n := h ▸ c.A
+              let s : State Float c.n c.n := h ▸ c.s
+              solveVerdict A s B t
+            else "-"
+        (st', out, v)
+      else (st, "bad-op", "-")
+    | none, _ => (st, "no-lu", "-")
+    | _, _ => (st, "bad-op", "-")
   | "solvev" :: mb :: rest =>
     -- the vector overload: the answer is printed as a one-column matrix
     match st.cur, parseMat (mb :: "1" :: rest) with
